@@ -267,10 +267,196 @@ def build_case(ctx, index, *, salt="build"):
     return found, info, project, res
 
 
+class _SubPlan:
+    """`sub.py` of `recreated_running_case`: declares X, then asks for `out/late.txt`; once that file exists
+    (second execution) it declares X with the additional input."""
+
+    version = 1
+
+    def __init__(self, xlabel, token, nwait, out):
+        self.xlabel, self.token, self.nwait, self.out = xlabel, token, nwait, out
+
+    def __call__(self, ctx):
+        from simdirector import A
+
+        inp = ["src/a.txt"] + (["out/late.txt"] if ctx.attempt > 1 else [])
+        # keeps working for a while after the declaration, so that X is dispatched during the first execution
+        return [A.step(self.xlabel, inp=inp, out=self.out, resources={"token": self.token}),
+                *[A.nop() for _ in range(self.nwait)], A.amend(inp=["out/late.txt"]), A.read("out/late.txt")]
+
+
+def recreated_running_case(ctx, index):
+    """A deferred planning script that is executed again while a step it declared is still running, and declares
+    that step with another input list (no recycle): whatever the director does with the running command, the
+    units in use never exceed the limit and no more than `njob` commands run."""
+    import copy
+
+    from simdirector import A, Project, RandomSchedule, SimDirector
+
+    r = ctx.rng("recreated-running", index)
+    nx, nlate, ngate = r.randint(12, 30), r.randint(4, 8), r.randint(4, 12)
+    xlabel = f"work X -n{nx}"
+    scripts = {
+        xlabel: [A.read_declared(), *[A.nop() for _ in range(nx)], A.write_declared()],
+        "mk late": [A.read_declared(), *[A.nop() for _ in range(nlate)], A.write_declared()],
+        "mk gate": [A.read_declared(), *[A.nop() for _ in range(ngate)], A.write_declared()],
+        "work Y": [A.read_declared(), A.nop(), A.nop(), A.write_declared()],
+        "./sub.py": _SubPlan(xlabel, 1, r.randint(3, 8), [] if index % 3 != 2 else ["out/x.txt"]),
+    }
+    plan = [A.static("src/a.txt", "sub.py"),
+            A.step("mk late", inp=["src/a.txt"], out=["out/late.txt"]),
+            A.step("./sub.py", inp=["sub.py"], plan=True),
+            A.step("mk gate", inp=["src/a.txt"], out=["out/gate.txt"]),
+            A.step("work Y", inp=["out/gate.txt"], out=["out/y.txt"], resources={"token": 1})]
+    scripts["./plan.py"] = plan
+    project = Project(scripts=scripts, files={"src/a.txt": "a\n", "sub.py": "# sub\n"})
+    njob = r.choice([5, 6, 8])
+    with SimDirector(copy.deepcopy(project), seed=r.randrange(1 << 30)) as sim:
+        res = sim.build(njob=njob, resources="token:1", schedule=RandomSchedule(r.randrange(1 << 30)))
+    info = {"family": "recreated-running", "njob": njob, "resources": "token:1", "status": res.status,
+            "returncode": repr(res.returncode)}
+    found = []
+    inf = 1 << 60
+    runs = [(x.label, x.start, x.end if x.end is not None else inf) for x in res.runs]
+    info["x_commands"] = sum(1 for x in res.runs if x.label == xlabel)
+    info["sub_executions"] = sum(1 for x in res.runs if x.label == "./sub.py")
+    if res.status != "done":
+        mech = ":running-step-recreated" if info["x_commands"] > 1 else ""
+        found.append((f"director-{res.status}{mech}",
+                      f"the build ended with status {res.status}: {(res.error or '')[-200:]}", info))
+        return found, info
+    xs = [(a, b) for l, a, b in runs if l == xlabel]
+    info["x_overlap"] = any(a1 < b2 and a2 < b1 for i, (a1, b1) in enumerate(xs) for (a2, b2) in xs[i + 1:])
+    peak = _peak([(a, b, 1) for _, a, b in runs])
+    if peak > njob:
+        found.append(("job-limit-exceeded", f"{peak} commands ran at once with --jobs {njob}", {**info, "runs": runs}))
+    held = [(x.start, x.end if x.end is not None else inf, x.resources.get("token", 0)) for x in res.runs
+            if x.resources.get("token", 0)]
+    peak = _peak(held)
+    info["peak_token"] = peak
+    if peak > 1:
+        mech = ":running-step-recreated" if info["x_overlap"] or info["x_commands"] > 1 else ""
+        found.append(("resource-limit-exceeded" + mech,
+                      f"{peak} units of token in use at once by running commands with 1 available "
+                      f"({info['x_commands']} commands of the step X, {info['sub_executions']} executions of its creator)",
+                      {**info, "runs": [t for t in runs if t[0] in (xlabel, "work Y")]}))
+    return found, info
+
+
+def api_requirements_oracle(ctx):
+    """The requirement a plan writes must be the requirement the director records: every API function that takes
+    `resources=` (step, run, plan, script, call, copy, render_jinja) is called for real with a captured RPC client,
+    and the `resources` argument of the resulting `define_step` call must be the requested units; `hold()` sends one
+    hold and one release, in that order, around whatever the block declares, also when the block raises."""
+    import os
+    import shutil
+    import tempfile
+
+    from stepup.core import api
+    from stepup.core.utils import parse_resources
+
+    r = ctx.rng("api-requirements")
+    base = os.path.realpath(tempfile.mkdtemp(prefix="verif-c12api-"))
+    keys = ("STEPUP_ROOT", "HERE", "ROOT", "STEPUP_JOB_I", "STEPUP_DIRECTOR_SOCKET")
+    old_env = {k: os.environ.get(k) for k in keys}
+    old_cwd = os.getcwd()
+    old_client = api._get_cached_rpc_client
+
+    import attrs
+    from stepup.core.rpc import DummySyncRPCClient
+
+    @attrs.define
+    class Capture(DummySyncRPCClient):
+        calls: list = attrs.field(factory=list)
+
+        def __call__(self, name, /, *args, _rpc_timeout=None, **kwargs):
+            self.calls.append((name, args, kwargs))
+            return None
+
+    try:
+        for f in ("tool.py", "src.txt", "tmpl.txt", "vars.json"):
+            with open(os.path.join(base, f), "w") as fh:
+                fh.write("{}" if f.endswith(".json") else "#!/usr/bin/env python3\n")
+            os.chmod(os.path.join(base, f), 0o755)
+        os.makedirs(os.path.join(base, "dst"), exist_ok=True)
+        os.chdir(base)
+        for k in keys:
+            os.environ.pop(k, None)
+        os.environ["STEPUP_JOB_I"] = "0"
+        os.environ["STEPUP_ROOT"] = base
+        os.environ["HERE"] = "."
+        wrappers = {
+            "step": lambda res: api.step("true", resources=res),
+            "run": lambda res: api.run("./tool.py arg", resources=res),
+            "plan": lambda res: api.plan("./tool.py arg", resources=res),
+            "script": lambda res: api.script("./tool.py", resources=res),
+            "script-optional": lambda res: api.script("./tool.py", optional=True, resources=res),
+            "call": lambda res: api.call("./tool.py", "fn", resources=res),
+            "call-planning": lambda res: api.call("./tool.py", "fn", planning=True, resources=res),
+            "copy": lambda res: api.copy("src.txt", "dst/", resources=res),
+            "render_jinja": lambda res: api.render_jinja("tmpl.txt", "vars.json", "out.txt", resources=res),
+        }
+        names = ["gpu", "mem", "token", "lic"]
+        for i in range(ctx.budget(90, 900)):
+            wname = sorted(wrappers)[i % len(wrappers)]
+            units = {n: r.randint(1, 5) for n in r.sample(names, r.randint(1, 3))}
+            as_string = r.random() < 0.5
+            res = ",".join(f"{k}:{v}" for k, v in units.items()) if as_string else dict(units)
+            if as_string and parse_resources(res) != units:
+                continue
+            client = Capture()
+            api._get_cached_rpc_client = lambda client=client: client
+            with_hold = r.random() < 0.3
+            raised = None
+            try:
+                if with_hold:
+                    with api.hold():
+                        wrappers[wname](res)
+                        if r.random() < 0.3:
+                            raise KeyError("block fails")
+                else:
+                    wrappers[wname](res)
+            except KeyError:
+                pass
+            except Exception as exc:  # noqa: BLE001
+                raised = exc
+            finally:
+                api._HOLD_STATE.holding = 0
+                for hist in api._AMEND_HISTORY.values():
+                    hist.clear()
+            ctx.stats.count(f"api-requirements:{wname}" + (":raises-" + type(raised).__name__ if raised else ""))
+            ctx.stats.case(("api-requirements", wname, as_string, with_hold))
+            if raised is not None:
+                ctx.finding(Finding(PID, f"requirement-lost-in-api:{wname}:raises",
+                                    f"{wname}(resources={res!r}) raises {raised!r}", {"wrapper": wname, "resources": res}))
+                continue
+            defs = [c for c in client.calls if c[0] == "define_step"]
+            sent = [c[1][8] if len(c[1]) > 8 else c[2].get("resources") for c in defs]
+            if len(defs) != 1 or sent[0] != units:
+                ctx.finding(Finding(PID, f"requirement-lost-in-api:{wname}",
+                                    f"{wname}(resources={res!r}) reaches the director as define_step(resources={sent})",
+                                    {"wrapper": wname, "resources": res, "sent": sent}))
+            if with_hold:
+                seq = [c[0] for c in client.calls if c[0] in ("hold_dispatch", "release_dispatch", "define_step")]
+                if seq != ["hold_dispatch", "define_step", "release_dispatch"]:
+                    ctx.finding(Finding(PID, "hold-lost-in-api",
+                                        f"with hold(): {wname}(...) sends {seq}", {"wrapper": wname, "calls": seq}))
+    finally:
+        api._get_cached_rpc_client = old_client
+        os.chdir(old_cwd)
+        for k, v in old_env.items():
+            if v is None:
+                os.environ.pop(k, None)
+            else:
+                os.environ[k] = v
+        shutil.rmtree(base, ignore_errors=True)
+
+
 async def search(ctx):
     import corr_kernel as _ck
     import jobloopcorr
 
+    api_requirements_oracle(ctx)
     await jobloopcorr.search(ctx, PID)
     await _ck.run_scenarios(ctx, lambda ctx, run_: Observer(ctx, run_), ["resource_race", "hold_recycle", "shrink_resources", "hold_running_recycled"])
     import asyncio
@@ -286,6 +472,16 @@ async def search(ctx):
         async with contextlib.AsyncExitStack() as cm:
             await run_.generate(cm, 70)
     st = ctx.stats
+    for i in range(ctx.budget(6, 120)):
+        found, info = await asyncio.to_thread(recreated_running_case, ctx, i)
+        st.programs += 1
+        st.case(("recreated-running", i), nontrivial=info.get("x_commands", 0) > 1)
+        st.count("builds:recreated-running")
+        st.count("builds:recreated-running:step-executed-twice", int(info.get("x_commands", 0) > 1))
+        for sig, what, extra in found:
+            ctx.finding(Finding(PID, sig, what, {
+                "case": {"verif_seed": ctx.seed, "salt": "recreated-running", "index": i}, **extra,
+                "how": "props/c12.py recreated_running_case(ctx, index)"}))
     for i in range(ctx.budget(45, 1500)):
         found, info, project, res = await asyncio.to_thread(build_case, ctx, i)
         st.programs += 1
@@ -316,6 +512,9 @@ async def replay(ctx, detail):
 
         os.environ["VERIF_SEED"] = str(case.get("verif_seed", 0))
         ctx.seed = int(case.get("verif_seed", 0))
+        if case.get("salt") == "recreated-running":
+            found, info = await asyncio.to_thread(recreated_running_case, ctx, int(case["index"]))
+            return {"reproduced": any(s == sig for s, _, _ in found), "signature": sig, "info": info}
         found, info, _, _ = await asyncio.to_thread(build_case, ctx, int(case["index"]), salt=case.get("salt", "build"))
         return {"reproduced": any(s == sig for s, _, _ in found), "signature": sig, "info": info}
     await search(ctx)
